@@ -18,10 +18,11 @@ pub fn def() -> PropDef {
         run: run_elector,
     }];
     parts.push(crate::props::solo_props::c09_part());
+    parts.push(crate::props::universal::c09_part());
     PropDef {
         id: "C09",
         level: "exploration",
-        rule: "proptest tape -> (elector) committee of 1..20 keys (random bytes, keys sharing long prefixes, keys differing only in the last byte), built in two independent insertion orders with different stakes/addresses; rounds over the whole u64 range (0, small, n-multiples +-1, 2^32+-1, u64::MAX neighbourhood): leader(r) is identical for both insertion orders (the two committees also differ in stakes, addresses and epoch), stable across calls, a committee member, and any n consecutive rounds cover every authority exactly once. (solo) perfectly valid proposals authored by a non-leader are never voted; every voted block's author is leader(round) and its signature verifies; the real node's own Propose frames carry at most one digest per round under racing QC/TC/timeout arrivals. Non-trivial: elector: n>=2 (distinct by key set+round); solo: a non-leader proposal for the node's current round was delivered, or the node proposed after a race.",
+        rule: crate::props::universal::with_rule("proptest tape -> (elector) committee of 1..20 keys (random bytes, keys sharing long prefixes, keys differing only in the last byte), built in two independent insertion orders with different stakes/addresses; rounds over the whole u64 range (0, small, n-multiples +-1, 2^32+-1, u64::MAX neighbourhood): leader(r) is identical for both insertion orders (the two committees also differ in stakes, addresses and epoch), stable across calls, a committee member, and any n consecutive rounds cover every authority exactly once. (solo) perfectly valid proposals authored by a non-leader are never voted; every voted block's author is leader(round) and its signature verifies; the real node's own Propose frames carry at most one digest per round under racing QC/TC/timeout arrivals. Non-trivial: elector: n>=2 (distinct by key set+round); solo: a non-leader proposal for the node's current round was delivered, or the node proposed after a race."),
         assumptions: &["u64 rounds; usize is 64 bits on the verified platform"],
         parts,
     }
